@@ -103,7 +103,8 @@ def check(prop, tier, seed):
         for u in units:
             if hasattr(u, 'configure'):
                 u.configure(tier)
-            names = [f.name for f in u.fns if f.harness and (prop in f.props or u.name in spec.get('all', []))]
+            names = [f.name for f in u.fns if f.harness and (prop in f.props or u.name in spec.get('all', []))
+                     and (tier == 'thorough' or getattr(f, 'tier', 'quick') != 'thorough')]
             if tier == 'thorough':
                 pass
             todo.append((u, names))
